@@ -32,6 +32,7 @@ static int run_once(const cfg_t *c, const uint8_t *prefix, int plen)
         alarm(60);
         sch_tr = TR; sch_prefix = prefix; sch_prefix_len = plen;
         if (c->pre_init && sodium_init() < 0) _exit(3);
+        if (c->pre_init) ops_shared_setup();
         sch_init(c->nthreads);
         for (i = 0; i < c->nthreads; i++) sch_spawn(i, c->body);
         sch_run();
@@ -157,7 +158,7 @@ static void compute_reference(void)
     int pfd[2], i; pid_t pid; int64_t buf[1 + 128];
     if (pipe(pfd)) exit(2);
     fflush(stdout); pid = fork();
-    if (pid == 0) { buf[0] = sodium_init(); for (i = 0; i < NOPS; i++) buf[1 + i] = OPS[i].fn(); if (write(pfd[1], buf, sizeof buf) < 0) _exit(3); _exit(0); }
+    if (pid == 0) { buf[0] = sodium_init(); ops_shared_setup(); for (i = 0; i < NOPS; i++) buf[1 + i] = OPS[i].fn(); if (write(pfd[1], buf, sizeof buf) < 0) _exit(3); _exit(0); }
     close(pfd[1]); if (read(pfd[0], buf, sizeof buf) != (ssize_t) sizeof buf) { fprintf(stderr, "reference child failed\n"); exit(2); } close(pfd[0]); waitpid(pid, NULL, 0);
     if (buf[0] != 0) { fprintf(stderr, "reference init failed\n"); exit(2); }
     for (i = 0; i < NOPS; i++) REF_OPS[i] = buf[1 + i];
